@@ -176,10 +176,11 @@ func (k Keeper) TallyValidityProofs(ctx sdk.Context, duration time.Duration, rep
 	}
 
 	replicationFactorDec := math.LegacyMustNewDecFromStr(replicationFactor) // TODO: remove with Dec
-	faultValidators := make(map[string]sdk.ValAddress)
 
 	for _, data := range challengingData {
 		if data.Status == types.Status_STATUS_CHALLENGING {
+			// fault validators of this item only
+			faultValidators := make(map[string]sdk.ValAddress)
 			proofs, err := k.GetProofs(ctx, data.MetadataUri)
 			if err != nil {
 				k.Logger.Error("failed to get proofs", "metadata_uri", data.MetadataUri, "error", err)
